@@ -964,6 +964,28 @@ theorem boxSetApi_refuses_iff (tiny : K) (c : CSys K) (scale : Option PyVal) (v 
   · rintro rfl
     rfl
 
+/-- **api_boxSet_scale** (end to end, anchor mechanism 3 with its option handling): at any point of any history on one
+    object, `box_set(vects=v, origin=o, scale=True)` is accepted and reading the scaled positions afterwards gives what
+    reading them before gave; with `scale=False` or no `scale` it is accepted and the Cartesian positions are untouched;
+    any non-`bool` scale is refused with `TypeError` (and, the call being refused, nothing is written). -/
+theorem api_boxSet_scale (P : Params K) (ops : List (Op K)) (c0 : CSys K) (h0 : Coherent c0) (v : M3 K) (o : V3 K)
+    (hdet : M3.det (zeroSmall P.tiny v) ≠ 0) (scale : Option PyVal) :
+    let c := (runC P c0 ops).1
+    (scale = some (.bool true) →
+      ∃ c', c.boxSetApi P.tiny scale v o = .ok c' ∧ (stepC P c' .spos).2 = (stepC P c .spos).2) ∧
+    ((scale = none ∨ scale = some (.bool false)) →
+      ∃ c', c.boxSetApi P.tiny scale v o = .ok c' ∧ c'.pos = c.pos ∧ c'.box = ⟨zeroSmall P.tiny v, o⟩) ∧
+    ((∃ x, scale = some x ∧ x.isBool = false) → c.boxSetApi P.tiny scale v o = .error .typeError) := by
+  intro c
+  obtain ⟨hr, _, hb, hn⟩ := boxSetApi_refuses_iff P.tiny c scale v o
+  refine ⟨?_, ?_, fun h => hr.mpr h⟩
+  · intro hs
+    refine ⟨_, hb true hs, ?_⟩
+    exact hist_boxSet_scale P ops c0 h0 v o hdet
+  · rintro (hs | hs)
+    · exact ⟨_, hn hs, rfl, rfl⟩
+    · exact ⟨_, hb false hs, rfl, rfl⟩
+
 /-- **wrapApi_spec**: `wrap(<flag>)` does the same work whatever is passed; the image flags are handed back exactly when
     the flag is truthy (so `1` and `numpy.True_` count, `0`, `None`, `''` and an omitted flag do not). -/
 theorem wrapApi_spec (P : Params K) (c : CSys K) (flag : Option PyVal) :
